@@ -43,6 +43,9 @@ type c15Batch struct {
 	closures  []func()
 	collected int
 	ready     chan struct{}
+
+	accepted, done bool
+	handled, expect int // process() entries seen / expected when the batch is cut short
 }
 
 type c15Script struct {
@@ -115,6 +118,17 @@ func c15Parse(in []string) *c15Script {
 		if b.hold > n {
 			b.hold = n
 		}
+		fired := map[int]bool{}
+		for _, p := range b.perm[:n-b.hold] {
+			fired[p] = true
+		}
+		if b.ordered {
+			for b.expect < n && fired[b.expect] {
+				b.expect++
+			}
+		} else {
+			b.expect = n - b.hold
+		}
 		b.closures = make([]func(), n)
 		b.ready = make(chan struct{})
 		if n == 0 {
@@ -159,6 +173,7 @@ func c15Run(in []string) []string {
 		if expectHandle {
 			expectHandle = false
 			log = append(log, fmt.Sprintf("A.%d", e.Cid))
+			sc.batches[e.Batch].handled++
 		}
 		mu.Unlock()
 	}
@@ -206,6 +221,9 @@ func c15Run(in []string) []string {
 				if err == c15ErrParentless {
 					code = "6"
 					log = append(log, fmt.Sprintf("A.%d", cidOf(e))) // process() entered with a check error
+					if ev, ok := e.(*gsev.Ev); ok {
+						sc.batches[ev.Batch].handled++
+					}
 				}
 				if ev, ok := e.(*gsev.Ev); !ok || peer != "peer"+strconv.Itoa(sc.batches[ev.Batch].id) {
 					code = "8"
@@ -337,6 +355,7 @@ func c15Run(in []string) []string {
 						mu.Lock()
 						log = append(log, fmt.Sprintf("Z.%d", bt.id))
 						doneCount++
+						bt.done = true
 						mu.Unlock()
 					})
 				mu.Lock()
@@ -346,6 +365,7 @@ func c15Run(in []string) []string {
 					vu.Stat("enqueue_busy")
 				} else {
 					accepted++
+					bt.accepted = true
 					firers.Add(1)
 					go fire(bt)
 				}
@@ -357,35 +377,37 @@ func c15Run(in []string) []string {
 		}(gi)
 	}
 
-	// wait for quiescence: exact when every Enqueue returned and every accepted batch is done;
-	// otherwise (a batch cut short by the script, an Acquire blocked for good) no change for 80 ms
-	holds := false
-	for _, bt := range sc.batches {
-		if bt.hold > 0 {
-			holds = true
-		}
-	}
-	type snap struct{ l, a, d, f, i int }
-	var last snap
-	lastChange := time.Now()
-	deadline := time.Now().Add(20 * time.Second)
+	// wait for quiescence, by counting (no sleeps decide anything): every Enqueue call has returned
+	// (a blocked Acquire returns after EventsSemaphoreTimeout), every accepted batch is done, and a
+	// batch cut short by the script has entered process() for every result that can be consumed.
+	// Batches queued behind a cut-short batch never run (single goroutine script order only).
+	deadline := time.Now().Add(10 * time.Second)
 	for {
 		mu.Lock()
-		cur := snap{len(log), accepted, doneCount, enqFinished, inEnqueue}
-		mu.Unlock()
-		if cur.f == sc.g && cur.d == cur.a && !holds {
-			break
+		pending := enqFinished != sc.g
+		blocked := false
+		for _, bt := range sc.batches {
+			if !bt.accepted || blocked {
+				continue
+			}
+			if bt.hold > 0 {
+				if bt.handled < bt.expect {
+					pending = true
+				}
+				blocked = sc.g == 1 // the inserter stays in this batch
+			} else if !bt.done {
+				pending = true
+			}
 		}
-		if cur != last {
-			last, lastChange = cur, time.Now()
-		} else if time.Since(lastChange) > 80*time.Millisecond {
-			vu.Stat("quiescence_by_timeout")
+		mu.Unlock()
+		if !pending {
 			break
 		}
 		if time.Now().After(deadline) {
-			panic("harness: no quiescence")
+			vu.Stat("quiescence_by_deadline")
+			break
 		}
-		time.Sleep(500 * time.Microsecond)
+		time.Sleep(200 * time.Microsecond)
 	}
 	p := sem.Processing()
 	tb := proc.TotalBuffered()
